@@ -94,6 +94,14 @@ class Mini:
             return r.value
         return None
 
+    def call_bound(self, fn: ast.FunctionDef, self_obj: Any, args, kwargs) -> Any:
+        params = [a.arg for a in fn.args.args]
+        bound: Dict[str, Any] = {params[0]: self_obj}
+        for p_, v in zip(params[1:], args):
+            bound[p_] = v
+        bound.update(kwargs)
+        return self.call_function(fn, bound)
+
     def tick(self, node):
         self.steps += 1
         if self.steps > self.max_steps:
@@ -445,6 +453,44 @@ class Mini:
         if isinstance(e, ast.Starred):
             raise AnalysisError("miniinterp: starred expression outside a call/list")
         raise AnalysisError(f"miniinterp: expression {type(e).__name__} ({norm(e)[:60]}) not supported")
+
+
+def module_globals(tree: ast.Module, stubs: Optional[Dict[str, Any]] = None) -> Dict[str, Any]:
+    """Names a function of this module may use: its module-level constants (those that evaluate in the subset) and its
+    module-level functions (as interpreted closures).  Checker stubs take precedence."""
+    interp = Mini(stubs)
+    env: Dict[str, Any] = {}
+    for st in tree.body:
+        try:
+            if isinstance(st, (ast.Assign, ast.AnnAssign)) and st.value is not None:
+                t = st.targets[0] if isinstance(st, ast.Assign) else st.target
+                if isinstance(t, ast.Name):
+                    env[t.id] = interp.ev(st.value, env)
+            elif isinstance(st, ast.FunctionDef):
+                env[st.name] = interp.closure(st, env)
+        except (AnalysisError, InterpRaise, Exception):
+            continue
+    out = dict(env)
+    out.update(stubs or {})
+    return out
+
+
+class Obj:
+    """An object of a repository class: attributes are given by the checker, methods are interpreted from their AST."""
+
+    def __init__(self, interp: "Mini", methods: Dict[str, ast.FunctionDef], attrs: Dict[str, Any]):
+        object.__setattr__(self, "_mi_interp", interp)
+        object.__setattr__(self, "_mi_methods", methods)
+        for k, v in attrs.items():
+            object.__setattr__(self, k, v)
+
+    def __getattr__(self, name):
+        methods = object.__getattribute__(self, "_mi_methods")
+        if name in methods:
+            interp = object.__getattribute__(self, "_mi_interp")
+            fn = methods[name]
+            return lambda *a, **k: interp.call_bound(fn, self, a, k)
+        raise AttributeError(name)
 
 
 class _Unbound:
